@@ -89,6 +89,13 @@ class C03(Check):
                     if self.tier == "quick" and n == 3 and wk[0] != "toy":
                         continue
                     yield ("user", wk, tup)
+        # user-supplied lists where copy-number calling is unavailable (no structural alleles / exome profile)
+        for wk, exome in ((("shipped", "cyp2c19"), False), (("shipped", "g6pd"), False), (("toy",), True)):
+            gene = worlds.gene_of(wk, "hg19")
+            names = sorted(gene.cn_configs)[:3] + ["nope"]
+            for n in range(1, 4):
+                for tup in itertools.product(names, repeat=n):
+                    yield ("user", wk, tup, exome)
         from .. import repo
         for name in repo.shipped_gene_names():
             if name.startswith("pharma"):
@@ -156,15 +163,21 @@ class C03(Check):
                            nontrivial=nontriv, counters={"not_best_explanation": info["not_best_explanation"]},
                            note={"reported": [(round(s, 3), f) for s, f in got], "ref": info})
         if st[0] == "user":
-            _, wk, names = st
+            _, wk, names = st[:3]
+            exome = len(st) > 3 and st[3]
             gene = worlds.gene_of(wk, "hg19")
             p = Profile("verif", cn_solution=list(names))
             v = []
+            saved = gene.do_copy_number
+            if exome:
+                gene.do_copy_number = False        # what genotype() does for exome profiles
             try:
                 sols = cn.estimate_cn(gene, p, None, "any")
                 ok = True
             except AldyException:
                 ok, sols = False, []
+            finally:
+                gene.do_copy_number = saved
             should = all(n in gene.cn_configs for n in names)
             if ok != should:
                 v.append(("cn/user-list-acceptance", f"user structure {names}: accepted={ok}, all names known={should}"))
